@@ -375,7 +375,11 @@ def run_index(i, seed, tier, emit):
         if firsts and n3:
             tail = list(d3.used[11:16])
             per_first = max(1, budget // len(firsts))
+            import time as _time
+            sweep_until = _time.time() + (25.0 if tier == 'quick' else 150.0)      # wall-clock cap of the sweep of one program
             for k in firsts:
+                if _time.time() > sweep_until:
+                    break
                 # first the run with pre-emption #1 alone tells where, in that execution, the operation body ended: the
                 # points after it are the recorder's finalisation, where a worker still in flight matters most
                 t1 = Tape(seed, prefix=[0, 0, 0, 0, 0, 2, 0, 2, k, 0, 2] + tail + [1 << 19, 0])
